@@ -344,6 +344,38 @@ Theorem C14_acc_z_index_needs_min_batch : acc_z_index_batched 8 [(0, 4); (4, 4)]
 Proof. exact acc_z_index_needs_min_batch. Qed.
 Print Assumptions C14_acc_z_index_needs_min_batch.
 
+(* periodic-value lookups of the fragmented constraint evaluator: the code looks the periodic table up at the GLOBAL step
+   fragment.offset() + i, which equals the single-fragment evaluation for every partition of the domain ... *)
+Theorem C14_periodic_global_index_spec : forall tl n frags, covers n frags ->
+  periodic_rows_fragmented tl frags = periodic_rows_serial tl n.
+Proof. exact periodic_global_index_spec. Qed.
+Print Assumptions C14_periodic_global_index_spec.
+
+Theorem C14_periodic_global_index_fragments : forall conc k T tl, 4 <= k -> T <= 64 ->
+  exists cs, fragment_plan conc (2 ^ k) T = Done cs /\ periodic_rows_fragmented tl cs = periodic_rows_serial tl (2 ^ k).
+Proof. exact periodic_global_index_fragments. Qed.
+Print Assumptions C14_periodic_global_index_fragments.
+
+(* ... the global index is REQUIRED: a fragment-local lookup is wrong as soon as there are two non-empty fragments and the
+   table (longest cycle * ce blowup) is longer than the first one; it is invisible when the table length divides every
+   fragment offset (this is the coverage rule enforced by checks/c14.py for every pool size 1..64) *)
+Theorem C14_periodic_local_index_wrong : forall tl n cs o0 sz o1 sz' rest, covers n cs ->
+  cs = (o0, sz) :: (o1, sz') :: rest -> 1 <= sz -> 1 <= sz' -> sz < tl ->
+  periodic_rows_local tl cs <> periodic_rows_serial tl n.
+Proof. exact periodic_local_index_wrong. Qed.
+Print Assumptions C14_periodic_local_index_wrong.
+
+Theorem C14_periodic_local_index_ok : forall tl cs n, tl <> 0 -> covers n cs -> Forall (fun c => fst c mod tl = 0) cs ->
+  periodic_rows_local tl cs = periodic_rows_serial tl n.
+Proof. exact periodic_local_index_ok. Qed.
+Print Assumptions C14_periodic_local_index_ok.
+
+(* concrete witness = seeded change C14-r3prover3: trace 4096, ce blowup 2, cycle 4096, 2 threads *)
+Theorem C14_periodic_local_index_refuted : exists cs, fragment_plan true (2 ^ 13) 2 = Done cs /\ length cs = 2 /\
+  periodic_rows_local (2 ^ 13) cs <> periodic_rows_serial (2 ^ 13) (2 ^ 13).
+Proof. exact periodic_local_index_refuted. Qed.
+Print Assumptions C14_periodic_local_index_refuted.
+
 (* ================================================================ proof-of-work nonce *)
 
 (* nonce_any_spec: whatever candidate order the workers examine, the nonce returned satisfies the predicate the
